@@ -81,6 +81,10 @@ SpecT(sw, x) ==
     \* compact text of a string / key longer than the inline capacity whose last character is x (String::from / to_string)
     [] sw[1] = "print_long_str" -> <<"text">> \o DropPad(Render(VStr(Rep(97, 20) \o <<x>>), Compact), 21, 9)
     [] sw[1] = "print_long_key" -> <<"text">> \o DropPad(Render(VObj(<<Entry(Rep(97, 20) \o <<x>>, VNull)>>), Compact), 22, 14)
+    \* x ordinary characters followed by one character sw[2] that needs an escape / several bytes: the length of the compact
+    \* text and its last characters (the position of an escape inside a long string must not matter)
+    [] sw[1] = "print_pad" -> LET t == Render(VStr(Rep(97, x) \o <<sw[2]>>), Compact) IN
+                              <<"tail", Len(t)>> \o DropPad(t, x + 1, 8)
     \* the width the layout decision must attribute to a one-character string / key: the smallest Width limit under which
     \* ["x"] / {"x":null} still stays on one line is the number of characters of its one-line form (C13)
     [] sw[1] = "width_str" -> <<"width", Len(OneLine(VArr(<<VStr(<<x>>)>>), Compact))>>
